@@ -786,6 +786,10 @@ fn main() {
         let vdaf = Prio3::new_histogram(2, 4, 2).unwrap();
         let (ps, shares) = vdaf.shard_with_random(b"c12", &2usize, &nonce, &tape.bytes(4, 128)).unwrap();
         check(&run, Subject { name: format!("Prio3Histogram{sfx}"), vdaf, vk: tape.array(5), ctx: b"c12".to_vec(), param: (), nonce, ps, shares, rounds: 1, strict: true, strict_content: false, budget, corrupt_all_bytes: true, not_judged: Default::default(), reevaluations: Default::default() });
+        // exactly one joint-randomness element (the whole encoding fits one chunk)
+        let vdaf = Prio3::new_histogram(2, 3, 4).unwrap();
+        let (ps, shares) = vdaf.shard_with_random(b"c12", &1usize, &nonce, &tape.bytes(15, 128)).unwrap();
+        check(&run, Subject { name: format!("Prio3Histogram(single chunk){sfx}"), vdaf, vk: tape.array(16), ctx: b"c12".to_vec(), param: (), nonce, ps, shares, rounds: 1, strict: true, strict_content: false, budget, corrupt_all_bytes: !q, not_judged: Default::default(), reevaluations: Default::default() });
         let vdaf = Prio3::new_sum_vec(2, 2, 3, 2).unwrap();
         let (ps, shares) = vdaf.shard_with_random(b"c12", &vec![1u128, 2, 0], &nonce, &tape.bytes(8, 128)).unwrap();
         check(&run, Subject { name: format!("Prio3SumVec{sfx}"), vdaf, vk: tape.array(9), ctx: b"c12".to_vec(), param: (), nonce, ps, shares, rounds: 1, strict: true, strict_content: false, budget, corrupt_all_bytes: !q, not_judged: Default::default(), reevaluations: Default::default() });
